@@ -7,7 +7,7 @@ from . import common as C
 HEADER = 'From WM Require Import Base.Prelude GoChannel.Sub GoChannel.Reg Corr.GoChannel.\n'
 # which variant of the model corresponds to the code in /repo (flipped by the fix: commits)
 FIXED_D13 = True
-FIXED_D7 = False
+FIXED_D7 = True
 
 def topic_no(s): return int(s.split('-')[1])
 def msg_no(u): return int(u.split('-')[1])
@@ -362,13 +362,14 @@ ASSUMPTIONS = [
     'data races are outside the models (thorough tier: -race build of the same scenarios)',
 ]
 
-def run_family(ctx, res, ncases=None, forced_rounds=None, seed_offset=0, race=False):
+def run_family(ctx, res, ncases=None, forced_rounds=None, seed_offset=0, race=False, persistent_only=False):
     """runs the scenario family once and returns (scenarios, replays, monitors)"""
     pid, tier, seed = ctx['pid'], ctx['tier'], ctx['seed'] + seed_offset
     binary = C.build_harness(race=race)
     ncases = ncases if ncases is not None else (45 if tier == 'quick' else 400)
     forced_rounds = forced_rounds if forced_rounds is not None else (1 if tier == 'quick' else 6)
-    scs, out = C.run_harness(binary, ['gochan', '-cases', str(ncases), '-forced', str(forced_rounds), '-seed', str(seed)], pid, 'gochan_%d.json' % seed, timeout=3000)
+    args = ['gochan', '-cases', str(ncases), '-forced', str(forced_rounds), '-seed', str(seed)] + (['-mode', 'persistent'] if persistent_only else [])
+    scs, out = C.run_harness(binary, args, pid, 'gochan_%d.json' % seed, timeout=3000)
     reps = replay_scenarios(pid, 'rep%d' % seed, scs)
     mons = run_monitors(pid, 'mon%d' % seed, scs)
     for sc, rp, mo in zip(scs, reps, mons):
@@ -402,6 +403,26 @@ def replay_mismatches(res, scs, reps, layers=('A', 'B')):
             code = rp['B'][0]
             res.mismatches.append(dict(kind='Corr.GoChannel.g_replay (GoChannel/Reg.v gstep vs Publish/Subscribe/teardown/Close): label %d not enabled or observation differs' % (code - 1),
                                        case=dict(scenario=sc['id'], forced=sc['forced'], persistent=sc['persistent'], blocking=sc['blocking'], labels_upto=m.B[max(0, code - 8):code])))
+
+def redelivery_check(res, sc, mo, sig):
+    """C04 'keeps receiving it after every Nack until it Acks': for a subscription that stayed open
+    (no cancel, no close before quiescence, nothing left unsettled) the LAST delivery of every
+    message it received must not be a Nacked one at quiescence."""
+    hist = []
+    for t, e in mo['hist']:
+        if t.startswith('AQuiescent'): break
+        hist.append(t.split())
+    if any(h[0] in ('ACloseCall', 'ADriverClose') for h in hist):
+        return
+    gone = {int(h[1]) for h in hist if h[0] in ('ACancel', 'ALeave', 'AChanClosed')}
+    last = {}       # (sub, pub) -> copy
+    nacked = set()  # (sub, copy)
+    for h in hist:
+        if h[0] == 'ARecv': last[(int(h[1]), int(h[2]))] = int(h[3])
+        elif h[0] == 'ANack': nacked.add((int(h[1]), int(h[2])))
+    for (x, p), c in sorted(last.items()):
+        if x not in gone and (x, c) in nacked:
+            res.violations.append(dict(signature=sig, what='subscription %d Nacked message %d and did not receive it again although it stayed open' % (x, p), case=readable(sc, mo['hist'])))
 
 def samples(res, scs, mons):
     for sc, mo in list(zip(scs, mons))[:2]:
